@@ -537,8 +537,10 @@ pub trait MapValidBasic<T: IsNone>: TrustedLen<Item = T> + Sized {
                             if last_value == Some(v.clone()) {
                                 None
                             } else {
+                                // a run ends before this element only if a non-null value precedes it
+                                let out = if last_value.is_some() { Some(i) } else { None };
                                 last_value = Some(v);
-                                Some(i)
+                                out
                             }
                         } else {
                             let out = if last_value.is_some() { Some(i) } else { None };
